@@ -1,11 +1,11 @@
-\* exhaustive, quick: every pair of calls from each of the 8 subsets of {a,ab,b} as initial contents
+\* exhaustive, quick: every pair of calls from each of 4 initial contents over {a,ab,b}
 CONSTANTS
   StoreKeys <- KeysABC
   Targets <- TargetsABC
   Vals <- ValsEX
   MaxLen = 2
   Phased = FALSE
-  InitFamily <- InitSubsets
+  InitFamily <- InitFew
   Ops <- OpsAll
 INIT Init
 NEXT Next
